@@ -34,9 +34,12 @@ type FaultCase struct {
 	Bystander *gwx.GQLRequest `json:"bystander,omitempty"`
 	// CleanData: the answer of the operation without faults (the same operation is repeated after the faulted run)
 	CleanData map[string]interface{} `json:"clean_data,omitempty"`
+	// History: the faulted run is preceded by this many runs of the same operation with the same fault on the same
+	// gateway (a service that has been failing for a while)
+	History int `json:"history,omitempty"`
 }
 
-var wholeCallKinds = []string{"transport", "body-cut", "status500", "status404", "status302", "notjson", "notarray-object", "notarray-null", "array-shorter", "array-longer"}
+var wholeCallKinds = []string{"transport", "body-cut", "status500", "status404", "status302", "status300-answer", "notjson", "notarray-object", "notarray-null", "single-object-errors", "single-object-errors-400", "array-shorter", "array-longer"}
 var elementKinds = []string{"elem-null", "elem-number", "errors-with-data", "errors-no-data", "errors-null-entry", "errors-empty-list", "data-missing", "data-null"}
 var nodeKinds = []string{"node-missing", "node-null", "node-string", "node-list", "node-number"}
 var shapeKinds = []string{"obj->list", "list->obj", "scalar-for-object", "list-entries-nonmaps", "null-for-list", "drop-id", "id-number", "id-object"}
@@ -44,7 +47,7 @@ var shapeKinds = []string{"obj->list", "list->obj", "scalar-for-object", "list-e
 // failureSignal: kinds for which the client's errors must be non-empty.
 func failureSignal(kind string) bool {
 	switch kind {
-	case "transport", "body-cut", "status500", "status404", "status302", "notjson", "notarray-object", "notarray-null", "array-shorter", "array-longer",
+	case "transport", "body-cut", "status500", "status404", "status302", "status300-answer", "notjson", "notarray-object", "notarray-null", "single-object-errors", "single-object-errors-400", "array-shorter", "array-longer",
 		"errors-with-data", "errors-no-data", "errors-null-entry", "data-missing", "node-missing", "node-string", "node-list", "node-number":
 		return true
 	}
@@ -130,6 +133,14 @@ func applyFault(f Fault, reqs []*fake.Received, normal []map[string]interface{})
 		return &fake.FaultResponse{Status: 404, Body: []byte("not found")}, true
 	case "status302":
 		return &fake.FaultResponse{Status: 302, Body: []byte("")}, true
+	case "status300-answer":
+		// a redirect-class status the client does not follow, with a well-formed answer as body: still not a success
+		return &fake.FaultResponse{Status: 300, Body: marshal(normal)}, true
+	case "single-object-errors":
+		// a service (or a proxy in front of it) refusing the batch as a whole with one error object
+		return &fake.FaultResponse{Body: []byte(`{"errors":[{"message":"batched requests are not supported"}]}`)}, true
+	case "single-object-errors-400":
+		return &fake.FaultResponse{Status: 400, Body: []byte(`{"errors":[{"message":"batched requests are not supported"}]}`)}, true
 	case "notjson":
 		return &fake.FaultResponse{Body: []byte("<html>oops</html>")}, true
 	case "notarray-object":
@@ -361,10 +372,21 @@ func checkC09(c *FaultCase) (f *ev.Failure, applied bool) {
 		}
 		net.Reset()
 	}
+	main := gwx.GQLRequest{Query: c.Op.Query, Variables: c.Op.Variables, OperationName: c.Op.OperationName}
+	for i := 0; i < c.History; i++ {
+		h := 0
+		var hk []string
+		installFaults(net, c.Faults, &h, &hk)
+		if r := gwx.PostOp(gw, main, 10*time.Second); r.TimedOut {
+			return ev.Failf("hang", "request %d of a series of requests that meet the same fault was not answered within 10s", i), true
+		} else if r.Panic != "" {
+			return ev.Failf("panic:"+gwx.PanicSite(r.Panic), "handler panicked on request %d of a series with the same fault: %s", i, trunc(r.Panic, 1200)), true
+		}
+		net.Reset()
+	}
 	hit := 0
 	var hitKinds []string
 	installFaults(net, c.Faults, &hit, &hitKinds)
-	main := gwx.GQLRequest{Query: c.Op.Query, Variables: c.Op.Variables, OperationName: c.Op.OperationName}
 	var body []byte
 	if c.Bystander != nil {
 		body, _ = json.Marshal([]gwx.GQLRequest{main, *c.Bystander})
@@ -510,7 +532,7 @@ func c09Gate(kind string) string { return "fault." + kind }
 
 func TestC09(t *testing.T) {
 	rec := ev.Get("C09")
-	rec.Rule = "for each generated (world, store, operation, max batch size) a clean run records the downstream HTTP calls; then EVERY (fault kind x call x batch position) is injected one at a time (28 kinds: transport error, 500/404/302, not JSON, not an array, array shorter/longer, element null/number, errors with/without data, data missing/null, node missing/null/string/list/number, object<->list, scalar for object, non-map list entries, null list, id dropped/number/object), plus one sampled pair of faults, with and without a healthy bystander operation in the same batch; evaluations counts injections; non-trivial = the faulted call is a child step (depth>=1) or carries >=2 requests; distinct by (query text of the call, kind, position class, batch size)"
+	rec.Rule = "for each generated (world, store, operation, max batch size) a clean run records the downstream HTTP calls; then EVERY (fault kind x call x batch position) is injected one at a time (31 kinds: transport error, 500/404/302, 300 with a well-formed answer, not JSON, not an array, one error object for the whole batch (200/400), array shorter/longer, element null/number, errors with/without data, data missing/null, node missing/null/string/list/number, object<->list, scalar for object, non-map list entries, null list, id dropped/number/object), plus one sampled pair of faults, now and then a series of 120..200 requests meeting the same fault on one gateway before the checked run, with and without a healthy bystander operation in the same batch; evaluations counts injections; non-trivial = the faulted call is a child step (depth>=1) or carries >=2 requests; distinct by (query text of the call, kind, position class, batch size)"
 	defer census.dump("C09")
 	rapid.Check(t, func(t *rapid.T) {
 		base, _ := genExecCase(t, rec, ast.Query)
@@ -546,8 +568,11 @@ func TestC09(t *testing.T) {
 		if rapid.IntRange(0, 1).Draw(t, "bystander") == 0 {
 			bystander = &gwx.GQLRequest{Query: "{ __schema { queryType { name } } }"}
 		}
-		run := func(faults []Fault) {
+		run := func(faults []Fault, history ...int) {
 			fc := &FaultCase{ExecCase: *base, Faults: faults, Bystander: bystander, CleanData: out.Expected}
+			if len(history) > 0 {
+				fc.History = history[0]
+			}
 			for _, ft := range faults {
 				if gateClosed(c09Gate(ft.Kind)) {
 					rec.Exclude(c09Gate(ft.Kind))
@@ -579,6 +604,9 @@ func TestC09(t *testing.T) {
 			}
 			if bystander != nil {
 				labels = append(labels, "bystander")
+			}
+			if fc.History > 0 {
+				labels = append(labels, "afterLongFailureHistory")
 			}
 			rec.Case(ev.Hash(faults[0].Query, faults[0].Kind, posClass, call.BatchSize, len(faults)), nt, labels...)
 			rec.Sample(nt, func() interface{} {
@@ -613,6 +641,12 @@ func TestC09(t *testing.T) {
 					run([]Fault{{URL: cr.URL, Query: cr.Query, Occurrence: cr.Occurrence, Pos: pos, Kind: k}})
 				}
 			}
+		}
+		// now and then: the same fault met 120..200 times in a row on one gateway, then the checked run and the healthy repeat
+		if rapid.IntRange(0, 11).Draw(t, "history") == 0 {
+			cr := calls[rapid.IntRange(0, len(calls)-1).Draw(t, "hcall")]
+			k := rapid.SampledFrom([]string{"status500", "transport", "errors-no-data", "notjson"}).Draw(t, "hkind")
+			run([]Fault{{URL: cr.URL, Query: cr.Query, Occurrence: cr.Occurrence, Kind: k}}, rapid.IntRange(120, 200).Draw(t, "hlen"))
 		}
 		// one sampled pair of faults
 		if len(calls) >= 2 {
